@@ -1,7 +1,7 @@
 SPECIFICATION Spec
 CONSTANTS
-  MaxObjs = 2
-  UIds <- UAll
+  MaxObjs = 4
+  UIds <- USmall
   RowSet <- RowsPairwise
   AllowDup = FALSE
   DedupInput = FALSE
